@@ -50,7 +50,7 @@ GEN = {
         ("named4", dict(MaxLen=4, LeafNames={"a", "b", "n2"},
                         OpNames={"dbeta", "dgam1", "dgam2", "dabs", "dlog1", "dlog2", "dzeta", "dmax", "mul2", "add2", "sq"})),
         # deeper trees over sums, products and log: log of a product of bracketed factors, log((a + b) (a + 2)) ..
-        ("logmul8", dict(MaxLen=8, LeafNames={"a", "b", "n2"}, OpNames={"add2", "mul2", "log"})),
+        ("logmul8", dict(MaxLen=8, LeafNames={"a", "b"}, OpNames={"add2", "mul2", "log"})),
         # floating-point literals incl. scientific notation with decimal exponents that are multiples of ten
         ("float4", dict(MaxLen=4, LeafNames={"f10", "f20", "fh", "fs", "a"}, OpNames={"mul2", "add2", "div", "neg", "sq", "inv"})),
     ],
@@ -64,6 +64,7 @@ GEN = {
         ("oper2x6", dict(MaxLen=6, LeafNames={"xt", "a"}, OpNames={"ddt", "isum", "iprod", "sumk", "int", "mul2"})),
         ("matrix7", dict(MaxLen=7, LeafNames={"a", "b", "n2", "h"}, OpNames={"mat23", "mat32", "mat13", "mat31"})),
         ("float5", dict(MaxLen=5, LeafNames={"f10", "f20", "fh", "fs", "a"}, OpNames={"mul2", "add2", "div", "neg", "sq", "inv", "sqrt"})),
+        ("logmul8", dict(MaxLen=8, LeafNames={"a", "b", "n2"}, OpNames={"add2", "mul2", "log"})),
         ("named5", dict(MaxLen=5, LeafNames={"a", "b", "nm1"},
                         OpNames={"dbeta", "dgam2", "dabs", "dlog1", "dlog2", "dzeta", "dmax", "mul2", "add2", "sq", "inv"})),
         ("oper5", dict(MaxLen=5, LeafNames={"xt", "a", "nm1"}, OpNames=OPERATORS | {"mul2", "add2", "sq", "inv", "sqrt"})),
@@ -71,10 +72,6 @@ GEN = {
                        OpNames=OPERATORS | {"mul2", "mul3", "add2", "neg", "div", "sq", "inv", "pm32", "pow", "exp", "sin"})),
     ],
 }
-
-# configurations that are only enumerated (their node kinds are model-checked in the other configurations; the
-# invariants talk about stack tops, not about depth)
-EMIT_ONLY = {"logmul8"}
 
 _ENV = None
 
@@ -448,8 +445,7 @@ def main(pid: str, mode: str) -> int:
             c = dict(consts, P=PRIMES[gi % 2], PointSeed=20260927 + run.seed)
             cfg = write_cfg(sc / f"pe_{label}.cfg", constants=c, invariants=INVARIANTS)
             cfg2 = write_cfg(sc / f"pe_{label}_emit.cfg", constants=c, invariants=["Emit"])
-            if not (tier == "quick" and label in EMIT_ONLY):
-                jobs.append(("mc", label, consts, c, cfg))
+            jobs.append(("mc", label, consts, c, cfg))
             jobs.append(("emit", label, consts, c, cfg2))
 
         def tlc_job(job):
